@@ -154,8 +154,24 @@ func desc(v reflect.Value) interface{} {
 		for i := 0; i < v.Len(); i++ {
 			l = append(l, desc(v.Index(i)))
 		}
-		return map[string]interface{}{"l": l}
-	case reflect.Func, reflect.Chan, reflect.Map, reflect.UnsafePointer:
+		m := map[string]interface{}{"l": l}
+		if v.Kind() == reflect.Slice && v.Cap() != v.Len() {
+			m["cap"] = v.Cap()
+		}
+		return m
+	case reflect.Map:
+		if v.IsNil() {
+			return nilDesc
+		}
+		mm := map[string]interface{}{}
+		for _, k := range v.MapKeys() {
+			mm[fmt.Sprintf("%v", k)] = desc(v.MapIndex(k))
+		}
+		if len(mm) == 0 {
+			return map[string]interface{}{"v": v.Type().String()}
+		}
+		return map[string]interface{}{"m": mm}
+	case reflect.Func, reflect.Chan, reflect.UnsafePointer:
 		if v.IsNil() {
 			return nilDesc
 		}
